@@ -212,3 +212,22 @@ Theorem C01_ligero_ml_value :
     ip (rowcomb rows n_cols (tensor_vec rpt)) (tensor_vec lpt) = mle_eval (concat rows) (lpt ++ rpt).
 Proof. exact @ligero_ml_value_mle. Qed.
 Print Assumptions C01_ligero_ml_value.
+
+(* PST13 at the level of the PolynomialCommitment trait (G1 elements as combinations of g, gamma_g and the standard
+   generator): any list of polynomials with arbitrary mixed monomials in the key's variables, each with or without a
+   blinding polynomial, opened together at any point with any challenges, is accepted by check for the true evaluations;
+   a commitment produced by commit is the element the theorem speaks about *)
+From PC Require Import Schemes.PST13 Proofs.PST13Facts Schemes.PST13H Proofs.PST13HFacts.
+Theorem C01_pst13_hiding_multi_complete :
+  forall (FO : FieldOps) (FL : FieldLaws FO) nv s betas items z chal pf rest,
+    Forall (good nv) items -> (nv <= length z)%nat ->
+    ph_open nv s betas items z chal = Ok (pf, rest) ->
+    ph_check nv betas (map (comm_of betas) items) z (map (fun it => eval_mpoly z (fst it)) items) pf chal = Ok (true, rest).
+Proof. exact @ph_complete. Qed.
+Print Assumptions C01_pst13_hiding_multi_complete.
+
+Theorem C01_pst13_commit_is_comm_of :
+  forall (FO : FieldOps) nv s betas p hiding has_rng blind cm st,
+    ph_commit1 nv s betas p hiding has_rng blind = Ok (cm, st) -> cm = comm_of betas (p, st).
+Proof. exact @ph_commit1_comm. Qed.
+Print Assumptions C01_pst13_commit_is_comm_of.
